@@ -90,6 +90,12 @@ def gen_graph(prng, big):
         vals = list(labels.values())
         prng.shuffle(vals)
         labels = dict(zip(used, vals))
+    r = prng.random()
+    if r < 0.05:
+        off = prng.choice((250, 995, 2 ** 31 - 3, 2 ** 63 + 5))      # label width changes, beyond the small-int cache / C long
+        labels = {k: v + off for k, v in labels.items()}
+    elif r < 0.08:
+        labels = {k: -v - 1 for k, v in labels.items()}              # negative labels
     es = [[labels[a], labels[b]] for a, b in edges]
     es.sort()
     prng.shuffle(es)
@@ -100,7 +106,8 @@ def gen_graph(prng, big):
 def generate(prng, tier, index):
     big = tier == "thorough"
     variant = "faults" if index % 5 == 4 else "clean"
-    sc = {"variant": variant, "edges": gen_graph(prng, big), "m0": prng.choice((2, 2, 3, 3, 4, 5, 6)),
+    sc = {"variant": variant, "edges": gen_graph(prng, big),
+          "m0": prng.choice((2, 2, 3, 3, 4, 5, 6)) if prng.random() > 0.04 else prng.choice((7, 8, 9, 16, 100, 2 ** 31)),
           "policy": prng.choice(({}, {"int": "min"}, {"int": "max"}, {"int": "sticky"}, {"int": "mix", "p": 0.5})),
           "build": prng.choice(("add_edge", "add_edges_from"))}
     if variant == "faults":
